@@ -24,6 +24,7 @@ import (
 	"fmt"
 	"math/big"
 	"sort"
+	"strings"
 	"testing"
 	"time"
 
@@ -96,6 +97,24 @@ func (c16SnapReader) Get(bucket string, key []byte) ([]byte, error) { return nil
 type c16Ledger struct {
 	chain []*c16Block
 	byID  map[string]*c16Block
+	// snap: key suffix -> value answered by the snapshot of every block of height >= snapFrom (election result /
+	// validator change recorded on the chain); nil = the stub ledger has no contract state at all
+	snap     map[string][]byte
+	snapFrom int64
+}
+
+type c16XMReader struct{ snap map[string][]byte }
+
+func (r c16XMReader) Get(bucket string, key []byte) (*ledger.VersionedData, error) {
+	for suffix, v := range r.snap { // suffixes are mutually exclusive
+		if strings.HasSuffix(string(key), suffix) {
+			return &ledger.VersionedData{PureData: &ledger.PureData{Bucket: bucket, Key: key, Value: v}, RefTxid: []byte("c16")}, nil
+		}
+	}
+	return nil, nil
+}
+func (c16XMReader) Select(bucket string, startKey []byte, endKey []byte) (ledger.XMIterator, error) {
+	return nil, errors.New("c16: no iterator in the stub ledger")
 }
 
 func c16NewLedger(genesisTs int64) *c16Ledger {
@@ -132,7 +151,13 @@ func (l *c16Ledger) GetTipXMSnapshotReader() (ledger.XMSnapshotReader, error) {
 	return c16SnapReader{}, nil
 }
 func (l *c16Ledger) CreateSnapshot(id []byte) (ledger.XMReader, error) {
-	return nil, errors.New("c16: no snapshot in the stub ledger")
+	if l.snap == nil {
+		return nil, errors.New("c16: no snapshot in the stub ledger")
+	}
+	if b, ok := l.byID[string(id)]; ok && b.height >= l.snapFrom {
+		return c16XMReader{l.snap}, nil
+	}
+	return c16XMReader{}, nil
 }
 func (l *c16Ledger) GetTipSnapshot() (ledger.XMReader, error) {
 	return nil, errors.New("c16: no snapshot in the stub ledger")
@@ -1213,6 +1238,200 @@ func c16RunPowChain(k c16PowCase, o *c16Obs) *c16Fail {
 }
 
 // ---------------------------------------------------------------------------------------------
+// acceptance when the validator set changes on the chain (tdpos: election for the next term; xpoa: edited set)
+// ---------------------------------------------------------------------------------------------
+
+type c16ChangeCase struct {
+	Plugin string `json:"plugin"`          // tdpos | xpoa
+	N      int    `json:"n"`               // size of the initial set Ring[0..N)
+	N2     int    `json:"n2"`              // size of the set recorded on the chain, Ring[N..N+N2) (tdpos: N2 = N)
+	Below  bool   `json:"below,omitempty"` // tdpos: also candidates one block BELOW the tip (a stale fork crossing the term boundary)
+}
+
+// c16RunChange: oracle = accepted => the proposer is the member, at the position the schedule gives for the block's OWN
+// timestamp, of the validator set in force for it. The stub chain is built so that this set is known without
+// transcribing any election rule: tdpos - every snapshot reports the same election, so every term after the first is
+// run by the elected set and term 1 by the initial one; xpoa - the edit sits in block 3, so blocks of height >= 7 are
+// produced by the new set.
+func c16RunChange(k c16ChangeCase, o *c16Obs) *c16Fail {
+	initSet := c16RingAddrs(k.N)
+	var newSet []string
+	for i := 0; i < k.N2; i++ {
+		newSet = append(newSet, hx.Ring[k.N+i].Address)
+	}
+	cands := append(append(append([]string{}, initSet...), newSet...), c16Stranger().Address)
+	xc := c16XCtx()
+	switch k.Plugin {
+	case "tdpos":
+		init := int64(1559021720000) * c16Ms
+		kc := c16TdposCase{Period: 3, BlockNum: 3, ProposerNum: int64(k.N), Alternate: 3, Term: 6, InitNs: init}
+		leg := c16NewLedger(init)
+		leg.snap = map[string][]byte{}
+		nominate := map[string]map[string]int64{}
+		for i, a := range newSet {
+			nominate[a] = map[string]int64{a: 1}
+			vb, _ := json.Marshal(map[string]int64{"voter": int64(1000 - i)})
+			leg.snap["_vote_"+a] = vb
+		}
+		nb, _ := json.Marshal(nominate)
+		leg.snap["_nominate"] = nb
+		inst, err := c16NewPlugin("tdpos", c16TdposConf(kc, initSet), leg, hx.Ring[0])
+		if err != nil {
+			return c16Failf("setup", "%v", err)
+		}
+		vs := tdpos.VerifScheduleOf(inst)
+		entitled := func(pos, slot int64) bool { return !(slot < 0 || slot >= kc.BlockNum || pos >= kc.ProposerNum) }
+		// trunk blocks 1..4: the first entitled instants of term 1 (one block per millisecond is fine for the stub)
+		var termStart [4]int64 // first entitled instant of terms 1..3
+		ts := init
+		for h := int64(1); h <= 4; {
+			ts += c16Ms
+			term, pos, slot := vs.MinerScheduling(ts)
+			if !entitled(pos, slot) {
+				continue
+			}
+			if term != 1 {
+				return c16Failf("setup", "term 1 has fewer than 4 entitled milliseconds")
+			}
+			st, _ := json.Marshal(map[string]int64{"curTerm": 1, "curBlockNum": slot})
+			leg.add(&c16Block{proposer: initSet[pos], height: h, id: c16Hash(fmt.Sprintf("c16-change-%d", h)), pre: leg.chain[h-1].id, ts: ts, storage: st})
+			h++
+		}
+		// candidates: every millisecond from the tip's instant to the end of term 2, at heights tip+1 and tip
+		tip := leg.chain[4]
+		for t := tip.ts; ; t += c16Ms {
+			term, pos, slot := vs.MinerScheduling(t)
+			if term >= 3 && entitled(pos, slot) {
+				break
+			}
+			if t > tip.ts+int64(k.N+2)*100*c16Ms {
+				return c16Failf("setup", "term 3 not reached")
+			}
+			if term >= 1 && term <= 3 && termStart[term] == 0 && entitled(pos, slot) {
+				termStart[term] = t
+			}
+			heights := []int64{5, 4}
+			if k.Below {
+				heights = append(heights, 3)
+			}
+			for _, h := range heights {
+				for _, who := range cands {
+					st, _ := json.Marshal(map[string]int64{"curTerm": term, "curBlockNum": slot})
+					blk := &c16Block{proposer: who, height: h, id: c16Hash(fmt.Sprintf("c16-cand-%d-%d-%s", h, t, who)), pre: leg.chain[h-1].id, ts: t, storage: st}
+					ok, _ := inst.CheckMinerMatch(xc, blk)
+					if !ok {
+						o.eval("tdpos-change-accept:rejected")
+						continue
+					}
+					o.eval("tdpos-change-accept:accepted")
+					set := initSet
+					if term >= 2 {
+						set = newSet
+					}
+					if !entitled(pos, slot) || set[pos] != who {
+						kind := "accept-elected"
+						if h < 4 {
+							kind = "accept-elected-below-tip"
+						}
+						return c16Failf(kind, "tdpos block of %q at height %d (ledger tip height 4, term 1) with timestamp origin+%dms = (term %d, pos %d, slot %d) accepted; the set in force for term %d is %v (initial set %v, elected for every later term %v)",
+							who, h, (t-init)/c16Ms, term, pos, slot, term, set, initSet, newSet)
+					}
+					if term >= 2 {
+						o.tag("tdpos-change:accepted-from-elected-set")
+						if h == 4 {
+							o.tag("tdpos-change:sibling-of-tip-in-next-term")
+						}
+					}
+				}
+			}
+		}
+	case "xpoa":
+		period, blockNum := int64(3), int64(2)
+		leg := c16NewLedger(0)
+		vb, _ := json.Marshal(map[string][]string{"address": newSet})
+		leg.snap = map[string][]byte{"_validates": vb}
+		leg.snapFrom = 3
+		ib, _ := json.Marshal(initSet)
+		conf := fmt.Sprintf(`{"period":%d,"block_num":%d,"init_proposer":{"address":%s}}`, period, blockNum, ib)
+		inst, err := c16NewPlugin("xpoa", conf, leg, hx.Ring[0])
+		if err != nil {
+			return c16Failf("setup", "%v", err)
+		}
+		vs := xpoa.VerifScheduleOf(inst)
+		for h := int64(1); h <= 6; h++ {
+			leg.add(&c16Block{proposer: initSet[0], height: h, id: c16Hash(fmt.Sprintf("c16-xchange-%d", h)), pre: leg.chain[h-1].id, ts: h * c16Ms, storage: []byte{}})
+		}
+		// height 7: proposer from the snapshot of block 3 (new set); every millisecond of two rounds of the longer set
+		span := int64(2*(k.N+k.N2)) * blockNum * period
+		for T := int64(10); T <= 10+span; T++ {
+			t := T * c16Ms
+			_, pos, slot := vs.MinerScheduling(t, len(newSet))
+			for _, who := range cands {
+				blk := &c16Block{proposer: who, height: 7, id: c16Hash(fmt.Sprintf("c16-xcand-%d-%s", T, who)), pre: leg.chain[6].id, ts: t, storage: []byte{}}
+				ok, _ := inst.CheckMinerMatch(xc, blk)
+				if !ok {
+					o.eval("xpoa-change-accept:rejected")
+					continue
+				}
+				o.eval("xpoa-change-accept:accepted")
+				if slot < 0 || slot > blockNum || pos >= int64(len(newSet)) || newSet[pos] != who {
+					return c16Failf("accept-elected", "xpoa block of %q at height 7 with timestamp %dms accepted; the set in force (edited in block 3, %d validators: %v) gives (pos %d, slot %d); the node still holds the initial set of %d in memory",
+						who, T, len(newSet), newSet, pos, slot, len(initSet))
+				}
+				o.tag("xpoa-change:accepted-from-new-set")
+			}
+		}
+	default:
+		return c16Failf("setup", "unknown plugin %q", k.Plugin)
+	}
+	return nil
+}
+
+func c16Changes(t *testing.T, c *hx.Collector) {
+	agg := c16NewAgg()
+	logged := 0
+	var cases []c16ChangeCase
+	for n := 1; n <= 4; n++ {
+		cases = append(cases, c16ChangeCase{Plugin: "tdpos", N: n, N2: n})
+		for _, n2 := range []int{n - 1, n, n + 1, n + 2} {
+			if n2 >= 1 && n+n2 < hx.RingSize-1 {
+				cases = append(cases, c16ChangeCase{Plugin: "xpoa", N: n, N2: n2})
+			}
+		}
+	}
+	// candidates below the tip: the trigger shape of a listed finding (witness first; generated only once it passes)
+	below := true
+	if f := c16RunChange(c16ChangeCase{Plugin: "tdpos", N: 1, N2: 1, Below: true}, c16NewObs(0)); f != nil {
+		below = false
+		if f.Kind == "accept-elected-below-tip" {
+			c16Report(t, c, "validator-change", f, c16ChangeCase{Plugin: "tdpos", N: 1, N2: 1, Below: true}, "tdpos-block-below-tip-judged-by-trunk-term", &logged)
+		} else {
+			c16Report(t, c, "validator-change", f, c16ChangeCase{Plugin: "tdpos", N: 1, N2: 1, Below: true}, "", &logged)
+		}
+	}
+	for i, k := range cases {
+		if !c16Mine(i) {
+			continue
+		}
+		if k.Plugin == "tdpos" {
+			k.Below = below
+		}
+		o := c16NewObs(1)
+		f := c16RunChange(k, o)
+		if o.tags["tdpos-change:sibling-of-tip-in-next-term"] > 0 || (k.Plugin == "xpoa" && k.N != k.N2 && o.tags["xpoa-change:accepted-from-new-set"] > 0) {
+			o.nontrivial(k)
+		}
+		agg.add(c, o)
+		if f != nil {
+			c16Report(t, c, "validator-change", f, k, "", &logged)
+			break
+		}
+	}
+	agg.flush(c)
+	c.SetExhaustive("validator-set change: tdpos n=1..4 (disjoint elected set of the same size), every millisecond from the tip to the 3rd term, candidate heights tip+1 and tip, every member of both sets and a stranger; xpoa n=1..4 -> n-1..n+2 validators, every millisecond of two rounds")
+}
+
+// ---------------------------------------------------------------------------------------------
 // the test
 // ---------------------------------------------------------------------------------------------
 
@@ -1707,7 +1926,7 @@ func TestC16(t *testing.T) {
 	for _, sub := range []struct {
 		name string
 		run  func(*testing.T, *hx.Collector)
-	}{{"schedules", c16Schedules}, {"single", c16Single}, {"compact", c16Compact}, {"isproofed", c16IsProofed}, {"pow-chain", c16PowChain}} {
+	}{{"schedules", c16Schedules}, {"single", c16Single}, {"compact", c16Compact}, {"isproofed", c16IsProofed}, {"pow-chain", c16PowChain}, {"validator-change", c16Changes}} {
 		start := time.Now() // wall clock is only reported, never used by a generator or an oracle
 		sub.run(t, c)
 		t.Logf("C16 %s: %.1fs", sub.name, time.Since(start).Seconds())
@@ -1793,6 +2012,13 @@ func init() {
 			return err
 		}
 		return asErr(c16CheckProofed(pc, k, c16NewObs(0)))
+	})
+	reg("validator-change", func(raw json.RawMessage) error {
+		var k c16ChangeCase
+		if err := json.Unmarshal(raw, &k); err != nil {
+			return err
+		}
+		return asErr(c16RunChange(k, c16NewObs(0)))
 	})
 	reg("pow-chain", func(raw json.RawMessage) error {
 		var k c16PowCase
